@@ -7,7 +7,7 @@ from props.common import differential, add_corr
 def run(rep, tier, seed, replay):
     PROP = "C05"
     rep.cov["rule"] = ("the real TCP processor between a scripted client and a scripted backend: streams of 0, 1, 2, 100, 4095, 16383, 16384, 16385, 40000, 100000 or random (<70000) bytes in "
-                       "each direction, written byte by byte with pauses, in pieces of 1-50 or 1-5000 bytes, or at once; three orders: the client half-closes first and the backend "
+                       "each direction, written byte by byte with pauses, in pieces of 1-50 or 1-5000 bytes, or at once; a paced stream (a byte every 50 ms for 3 s) through a service whose idle timeout is 2 s; 6 MiB towards a backend that has half-closed and reads slowly; three orders: the client half-closes first and the backend "
                        "answers only after it has seen end-of-stream, the reverse, both at once. Each side's received bytes (length + FNV-1a) and whether it saw a clean end-of-stream are "
                        "compared with the model relaying the same data under a spread of read sizes; the processor's upstream connection counters after the connection "
                        "(total/destroyed/active = 1/1/0, C20). non-trivial = more than one buffer in some direction or a byte-by-byte stream; distinct = distinct line")
@@ -18,6 +18,20 @@ def run(rep, tier, seed, replay):
     rc = [json.load(open(replay))["case"]["line"]] if replay else None
     res = differential(rep, PROP, "c05", seed, 60 if tier == "quick" else 3000, tier, replay_cases=rc)
     cases, impl, model = res["cases"], res["impl"], res["models"]["c05"]
+    # streams too large for the inductive byte lists of the extracted model: the expectation (C05_exact: delivered = sent)
+    # is computed here from the same data formula
+    def fnv(bs):
+        h = 2166136261
+        for b in bs:
+            h = ((h ^ b) * 16777619) & 0xFFFFFFFF
+        return h
+    for i, c in enumerate(cases):
+        if model[i] == "LARGE":
+            f = c.split()
+            sd, nc, nb = int(f[0]), int(f[1]), int(f[2])
+            dc = bytes((k * 131 + sd * 17 + k // 256) & 255 for k in range(nc))
+            db = bytes((k * 137 + sd * 29 + k // 256 + 7) & 255 for k in range(nb))
+            model[i] = "c2b=%d:%08x eof=1 b2c=%d:%08x eof=1 upstream=1/1/0" % (nc, fnv(dc), nb, fnv(db))
     mm = vlib.diff_lines(impl, model)
     add_corr(rep, "Relayed streams: bytes and end-of-stream on both sides, upstream counters vs the model", res, mm,
              len({c for c in cases if int(c.split()[1]) > 16384 or int(c.split()[2]) > 16384 or c.split()[4] == "1" or c.split()[5] == "1"}))
